@@ -184,6 +184,19 @@ def run_case(case, rng):
         iv = float(res.initial_value)
         exp = sum(p * float(res.V[s]) for s, p in sp.init)
         case.check(abs(iv - exp) <= 1e-9 * max(1, abs(exp)), "wrapper:initial_value!=E[V]", f"{iv!r} vs {exp!r}")
+        # the same planner object, another temperature, the SAME mdp object (annealing): judged for the new weight
+        w2 = rng.choice([x for x in (0.05, 0.1, 1.0, 10.0) if x != w])
+        planner = EntropyRegularizedPolicyIteration(iterations=iters, entropy_weight=w)
+        first = case.call("plan_on(first)", planner.plan_on, mdp)
+        planner.entropy_weight = w2
+        res2 = case.call("plan_on(second weight)", planner.plan_on, mdp)
+        case.count("replans_with_new_weight")
+        if first is not case.FAIL and res2 is not case.FAIL and bool(res2.converged):
+            q2 = np.array([[float(res2.Q[s][a]) for a in A] for s in S])
+            v2 = np.array([float(res2.V[s]) for s in S])
+            pi2 = np.array([[float(res2.policy[s][a]) for a in A] for s in S])
+            judge(case, "wrapper-replan", arr.T, arr.ER, sp.gamma, np.full(len(S), w2), np.full((len(S), len(A)), 1.0 / len(A)),
+                  q2, v2, pi2, True, dict(case.params, second_weight=w2))
 
 
 def _open_simplex(rng, n):
